@@ -62,8 +62,12 @@ package geometry
 
 // The two closed segments share a point  <=>  exists s,t :: meet(a,b,c,d,s,t).
 // true direction: witnesses per return site ($s,$t); false direction: s,t universally quantified ghosts.
+// the (deterministic) answer of IntersectsSegment as a mathematical function of the two segments;
+// its meaning is given by the True/False clauses below
+//@ spec func isegS(g Segment, h Segment) bool
 //@ func Segment.IntersectsSegment
 //@   props C19 C02 C03
+//@   pureas isegS
 //@   ghost gs real
 //@   ghost gt real
 //@   ensures True: result ==> meet(seg.A, seg.B, other.A, other.B, $s, $t)
